@@ -32,14 +32,27 @@
        the attractor of every recurrence goal equals the region
        (L4/GR1Closure.v).
 
-   NOT proved here: liveness of infinite behaviours (every infinite closed
-   loop behaviour satisfies the Streett condition); it is only exercised on
-   the real code by the explicit fair-cycle search. *)
+   (g) LIVENESS: every infinite closed-loop behaviour in which the environment
+       keeps its action, started with the goal counter in range, satisfies
+       "some persistence predicate holds from some point on, or every
+       recurrence predicate holds infinitely often" (C02_liveness).  The proof
+       classifies every allowed step as goal switch / descent / stay
+       (StreettLive1), shows that descents strictly lower and stays never
+       raise the position of the first trap containing the state
+       (StreettLive2/3, from the onion structure), and concludes with a
+       counter/rank argument on infinite sequences (L4/LiveLemma.v), which
+       uses excluded middle: C02_liveness depends on the standard-library
+       axiom Classical_Prop.classic (see Print Assumptions below); all other
+       theorems of this file are axiom-free.
+
+   Together (a)-(g) are the statement of C02 for the model (hand-written
+   transducer over the generated solver); the model is tied to the real
+   make_streett_transducer by the correspondence check. *)
 From Coq Require Import List Bool Arith Lia.
 From Omega Require Import L4.Arena L4.Kleene.
 From OmegaGen Require Import FixpointGen Gr1Gen.
 From OmegaGP Require Import TransducerModel StreettTProofs StreettNB2 StreettNB4 StreettIter2
-  StreettClosure1 StreettClosure2.
+  StreettClosure1 StreettClosure2 StreettLive4.
 
 Section C02.
 Variables nc nx ny G : nat.
@@ -130,6 +143,22 @@ Proof.
            G HG c x ye x' ye').
 Qed.
 
+Theorem C02_liveness :
+  forall nc nx ny (E S : bdd) (holds goals : list bdd) (moore plus_one : bool) fuel G
+         (sigma : nat -> V),
+  NV nc nx ny <= fuel -> Forall spred holds -> Forall spred goals -> 0 < G ->
+  behaviour nc nx ny E S holds goals moore plus_one fuel G sigma ->
+  cnt G (sigma 0) < length goals ->
+  (* persistence: some <>[] predicate holds from some point on *)
+  (exists P, In P holds /\ exists N, forall i, N <= i -> P (bv G (sigma i)) = true) \/
+  (* recurrence: every []<> predicate holds infinitely often *)
+  (forall j R, nth_error goals j = Some R ->
+     forall N, exists i, N <= i /\ R (bv G (sigma i)) = true).
+Proof.
+  intros nc nx ny E S holds goals moore plus_one fuel G sigma Hf Sh Sg HG Hb Hc0.
+  exact (streett_impl_live nc nx ny E S holds goals moore plus_one fuel Hf Sh Sg G HG sigma Hb Hc0).
+Qed.
+
 (* non-vacuity: a game with a non-trivial winning region and two goals *)
 Example C02_never_blocks_example :
   let E : bdd := fun v => true in
@@ -148,6 +177,7 @@ Qed.
 Print Assumptions C02_never_blocks.
 Print Assumptions C02_region_closed.
 Print Assumptions C02_reachable_states_winning.
+Print Assumptions C02_liveness.
 Print Assumptions C02_refines_component_action.
 Print Assumptions C02_obligation_at_the_step.
 Print Assumptions C02_moore_independent_of_next_env.
